@@ -1,3 +1,116 @@
 import BB.Driver.Util
-/-! Placeholder driver for C16 (replaced when the model is built). -/
-def main : IO Unit := BB.Driver.loop (fun (s : Unit) _ => (s, "unimplemented")) ()
+import BB.Model.ErrorHandling
+/-!
+Line-protocol driver of the C16 error-handling model (stateless: one case per line).
+
+    run <D> <size> <op> <base> <resp>*
+
+* `<D>` hex of the bytes the digest stands for (`-` = empty), `<size>` the digest's size field
+  (the digest matches a byte string iff it equals `<D>`; all CAS buffers of a case carry it).
+* `<op>`: `slice:<max>` | `writer:<j>` | `writer:-` | `readat:<off>:<n>` | `reader:<n1>.<n2>...` |
+  `reader:-` | `chunks:<off>:<m>:<k>` | `discard` | `size`
+* `<base>`, and `<resp>` unless it is `F:<k>` (handler returns error `k`), is a buffer:
+  `B:<hex>` validated byte slice, `E:<k>` error buffer, `S:<hex>` NewCASBufferFromByteSlice,
+  `C:<items>` / `R:<items>` CAS buffer over a scripted chunk reader / reader; items are
+  `.`-separated: hex data, `-` empty chunk, `!<k>` failure `k`; `_` = no items.
+
+Reply: `<result> log=<errors offered to OnError> done=<number of Done calls>`.
+-/
+open BB.Driver BB.ErrorHandling
+
+def splitOnChar (s : String) (sep : Char) : List String :=
+  let rec go (cs : List Char) (cur : List Char) (acc : List String) : List String :=
+    match cs with
+    | [] => (String.ofList cur.reverse :: acc).reverse
+    | c :: rest => if c == sep then go rest [] (String.ofList cur.reverse :: acc) else go rest (c :: cur) acc
+  go s.toList [] []
+
+def item? (w : String) : Option Item :=
+  match w.toList with
+  | '!' :: r => (nat? (String.ofList r)).map Item.fail
+  | _ => (hexBytes? w).map Item.data
+
+def items? (w : String) : Option (List Item) :=
+  if w == "_" then some [] else (splitOnChar w '.').mapM item?
+
+def buf? (d : Digest) (w : String) : Option Buf :=
+  match splitOnChar w ':' with
+  | ["B", x] => (hexBytes? x).map Buf.bytes
+  | ["E", k] => (nat? k).map fun k => Buf.error (.tag k)
+  | ["S", x] => (hexBytes? x).map (casBytes d)
+  | ["C", x] => (items? x).map (Buf.chunks d)
+  | ["R", x] => (items? x).map (Buf.reader d)
+  | _ => none
+
+def resp? (d : Digest) (w : String) : Option Resp :=
+  match splitOnChar w ':' with
+  | ["F", k] => (nat? k).map Resp.fail
+  | _ => (buf? d w).map Resp.repl
+
+def op? (w : String) : Option Op :=
+  match splitOnChar w ':' with
+  | ["slice", m] => (nat? m).map Op.slice
+  | ["writer", "-"] => some (Op.writer none)
+  | ["writer", j] => (nat? j).map fun j => Op.writer (some j)
+  | ["readat", o, n] => do let o ← nat? o; let n ← nat? n; pure (Op.readAt o n)
+  | ["reader", "-"] => some (Op.reader [])
+  | ["reader", ns] => do
+      let l ← (splitOnChar ns '.').mapM nat?
+      if l.any (· == 0) then none else pure (Op.reader l)
+  | ["chunks", o, m, k] => do
+      let o ← nat? o; let m ← nat? m; let k ← nat? k
+      if m == 0 then none else pure (Op.chunkReader o m k)
+  | ["discard"] => some Op.discard
+  | ["size"] => some Op.size
+  | _ => none
+
+def showErr : Err → String
+  | .tag k => s!"t{k}"
+  | .exhausted => "exhausted"
+  | .sizeMismatch e o => s!"size:{e}:{o}"
+  | .tooBig => "toobig"
+  | .hashMismatch => "hash"
+  | .badOffset s o => s!"badoff:{s}:{o}"
+  | .tooLarge s m => s!"toolarge:{s}:{m}"
+  | .writer => "writer"
+
+def showStatus : Status → String
+  | .ok => "ok"
+  | .eof => "eof"
+  | .err e => "err:" ++ showErr e
+
+def joinOr (sep : String) (l : List String) : String :=
+  if l.isEmpty then "-" else sep.intercalate l
+
+def showResult : Result → String
+  | .slice (.ok b) => "ok:" ++ bytesHex b
+  | .slice (.error e) => "err:" ++ showErr e
+  | .readAt (.ok (b, false)) => "ok:" ++ bytesHex b
+  | .readAt (.ok (b, true)) => "eof:" ++ bytesHex b
+  | .readAt (.error e) => "err:" ++ showErr e
+  | .reads rs => joinOr "," (rs.map fun (b, st) => bytesHex b ++ "/" ++ showStatus st)
+  | .writes ws none => joinOr "." (ws.map bytesHex) ++ "/ok"
+  | .writes ws (some e) => joinOr "." (ws.map bytesHex) ++ "/err:" ++ showErr e
+  | .size (.ok n) => s!"ok:{n}"
+  | .size (.error e) => "err:" ++ showErr e
+  | .unit => "ok"
+
+def runLine (ws : List String) : Option String :=
+  match ws with
+  | "run" :: dh :: sz :: op :: base :: resps => do
+    let dbytes ← hexBytes? dh
+    let size ← nat? sz
+    let d : Digest := { size := size, valid := fun b => b == dbytes }
+    let op ← op? op
+    let base ← buf? d base
+    let h ← resps.mapM (resp? d)
+    let o := runOp base h op
+    pure s!"{showResult o.result} log={joinOr "," (o.log.map showErr)} done={o.done}"
+  | _ => none
+
+def step (s : Unit) (line : String) : Unit × String :=
+  match runLine (words line) with
+  | some r => (s, r)
+  | none => (s, "bad-op")
+
+def main : IO Unit := BB.Driver.loop step ()
